@@ -17,7 +17,7 @@ from vlib.shrink import shrink_seq
 
 ID = "C03"
 LEVEL = "exploration"
-BUDGET = {"quick": 75, "thorough": 900}
+BUDGET = {"quick": 200, "thorough": 1200}
 RULE = (
     "case = (parser variant, document text rendered from a generated token list; "
     "canonical single-blank layout or a random layout). Values: decimal/based "
